@@ -246,6 +246,26 @@ theorem recvHeaders_refuses (s : Streams) (h : HeadersIn) (nextId : Nat)
   subst h1
   exact ⟨rfl, h3, h4, h5, h2⟩
 
+/-- `Recv::recv_headers` for a stream that is still uncounted (a promised stream whose response
+    arrives) when the limit is reached: the stream is refused with a stream error
+    `REFUSED_STREAM`; it is not counted, and no `assert!` fires (fix F31) -/
+theorem recvRecvHeaders_refuses (s : Streams) (id : Nat) (h : HeadersIn) (x : Stream) (st' : State)
+    (hx : s.store.get? id = some x) (ho : x.state.recvOpen h.eos h.isInformational = (st', .ok true))
+    (hc : x.isCounted = false) (hfull : s.counts.canIncNumRecvStreams = false) :
+    (s.recvRecvHeaders id h).2 = .state (PErr.libraryReset x.id REFUSED_STREAM) ∧
+    (s.recvRecvHeaders id h).1.counts = s.counts ∧ (s.recvRecvHeaders id h).1.panicked = s.panicked := by
+  have hm := modStream_get?_self s id (fun st => { st with state := st' }) x hx rfl
+  have hcnt : (s.modStream id fun st => { st with state := st' }).counts = s.counts := by
+    unfold Streams.modStream; rw [hx]; rfl
+  have hpan : (s.modStream id fun st => { st with state := st' }).panicked = s.panicked := by
+    unfold Streams.modStream; rw [hx]; rfl
+  unfold Streams.recvRecvHeaders
+  rw [stream_of_get? hx, ho]
+  dsimp only
+  rw [stream_of_get? hm, hcnt, hfull]
+  simp only [hc, Bool.not_false, Bool.and_self, if_true]
+  exact ⟨by first | rfl | trivial, hcnt, hpan⟩
+
 -- ===================================================================== C05: a freed slot is taken
 
 /-- as soon as there is room, the head of `pending_open` is opened -/
